@@ -244,6 +244,48 @@ func (v visitor) Visit(n ast.Node) ast.Visitor {
 			*v.out = append(*v.out, "defer:"+nm)
 		}
 		return nil
+	case *ast.DeclStmt:
+		if digestMode {
+			if gd, ok := x.Decl.(*ast.GenDecl); ok {
+				for _, sp := range gd.Specs {
+					if vs, ok := sp.(*ast.ValueSpec); ok {
+						for _, val := range vs.Values {
+							ast.Walk(v, val)
+						}
+						var ns []string
+						for _, n := range vs.Names {
+							ns = append(ns, n.Name)
+						}
+						*v.out = append(*v.out, "decl:"+gd.Tok.String()+" "+strings.Join(ns, ",")+" "+render0(vs.Type)+"="+condList(vs.Values))
+					}
+				}
+				return nil
+			}
+		}
+	case *ast.LabeledStmt:
+		if digestMode {
+			*v.out = append(*v.out, "label:"+x.Label.Name)
+		}
+	case *ast.SelectStmt:
+		if digestMode {
+			*v.out = append(*v.out, "select{")
+			ast.Walk(v, x.Body)
+			*v.out = append(*v.out, "}")
+			return nil
+		}
+	case *ast.CommClause:
+		if digestMode {
+			if x.Comm == nil {
+				*v.out = append(*v.out, "comm:default")
+			} else {
+				*v.out = append(*v.out, "comm:")
+				ast.Walk(v, x.Comm)
+			}
+			for _, st := range x.Body {
+				ast.Walk(v, st)
+			}
+			return nil
+		}
 	case *ast.ExprStmt:
 		if v.args {
 			if c, ok := x.X.(*ast.CallExpr); ok {
@@ -327,7 +369,11 @@ func (v visitor) Visit(n ast.Node) ast.Visitor {
 		}
 	case *ast.BranchStmt:
 		if v.full {
-			*v.out = append(*v.out, x.Tok.String())
+			t := x.Tok.String()
+			if digestMode && x.Label != nil {
+				t += " " + x.Label.Name
+			}
+			*v.out = append(*v.out, t)
 			return nil
 		}
 	case *ast.IfStmt:
